@@ -185,8 +185,27 @@ func runC06(c *Ctx) {
 			site := cef.Ins
 			blk := topBlockOf(cef.Act, cef.Ins)
 			var l *Loop
+			lAct := s
 			if blk != nil {
 				l = innermostLoop(loops, blk)
+			}
+			// the scan may sit in a helper outside the vocabulary (a method of the result that is handed
+			// the candidates): the loop is then one of that activation
+			for a := cef.Act; l == nil && a != nil && a != s; a = a.Parent {
+				var ablk *ssa.BasicBlock
+				if a == cef.Act {
+					ablk = cef.Ins.Block()
+				}
+				for x := cef.Act; x != nil && ablk == nil; x = x.Parent {
+					if x.Parent == a && x.Site != nil {
+						ablk = x.Site.Block()
+					}
+				}
+				if ablk != nil {
+					if l2 := innermostLoop(loopsOf(a.Fn), ablk); l2 != nil {
+						l, lAct = l2, a
+					}
+				}
 			}
 			if call == nil || l == nil {
 				c.Fail("C06.R1", "NewMatchingResult: selection loop", site.Pos(), "UNDECIDED: selection not inside a loop")
@@ -195,7 +214,7 @@ func runC06(c *Ctx) {
 			ro := rangedOver(l)
 			var coll *E
 			if ro != nil {
-				coll = s.Env[ro.Coll]
+				coll = lAct.Env[ro.Coll]
 			}
 			cand := call.Args[0]
 			// which store does this selection feed?  The admission condition is the
@@ -253,7 +272,7 @@ func runC06(c *Ctx) {
 								sub[inc.key] = u.mk("new", "incumbent", inc.Typ)
 							}
 							sub[docCall.key] = u.Bool(boolRef(hp == 1))
-							loopCtlSub(u, s, loops, docStore.Cond, sub)
+							loopCtlSub(u, s, loops, docStore.Cond, sub, loopInsts(g, s)...)
 							identitySub(u, docStore.Cond, cand, inc, sub)
 							// the call's second argument is substituted too; key the call before substitution
 							val, ok, res := foldCond(u, docStore.Cond, sub)
@@ -281,7 +300,7 @@ func runC06(c *Ctx) {
 			var dr *E
 			for _, at := range u.AtomsOf(basicStore.Cond) {
 				u.Mentions(at, func(x *E) bool {
-					if x.Op == "field" && x.Aux == "DocumentRule" {
+					if (x.Op == "field" && x.Aux == "DocumentRule") || (x.Op == "loopval" && strings.Contains(x.Aux, "faddr<DocumentRule>")) {
 						dr = x
 						return true
 					}
@@ -308,7 +327,7 @@ func runC06(c *Ctx) {
 										sub[inc.key] = u.mk("new", "incumbent", inc.Typ)
 									}
 									sub[basicCall.key] = u.Bool(boolRef(hp == 1))
-									loopCtlSub(u, s, loops, basicStore.Cond, sub)
+									loopCtlSub(u, s, loops, basicStore.Cond, sub, loopInsts(g, s)...)
 									identitySub(u, basicStore.Cond, cand, inc, sub)
 									var dbits int64
 									if dr != nil {
@@ -705,9 +724,19 @@ func identitySub(u *U, cond Ref, cand, inc *E, sub map[string]*E) {
 	}
 }
 
-func loopCtlSub(u *U, s *Summary, loops []*Loop, cond Ref, sub map[string]*E) {
+func loopCtlSub(u *U, s *Summary, loops []*Loop, cond Ref, sub map[string]*E, more ...LoopInst) {
+	insts := make([]LoopInst, 0, len(loops)+len(more))
 	for _, l := range loops {
-		cont := contCond(u, s, l)
+		insts = append(insts, LoopInst{s, l})
+	}
+	for _, li := range more {
+		if li.Act != s {
+			insts = append(insts, li) // loops of helpers outside the vocabulary expanded into the evaluation
+		}
+	}
+	for _, li := range insts {
+		l := li.L
+		cont := contCond(u, li.Act, l)
 		if cont == True || cont == False {
 			continue
 		}
